@@ -227,7 +227,7 @@ def run_history(events, active=False):
                 body = b"" if wellformed else b"\x01"
                 ses.rig.conn.feed(frame(0, system, stream=s, function=f, w=w, body=body, session=0))
                 ses.settle()
-                coq_events.append(f"(EvData {L.z(system)} {L.bool_(bool(w))} {L.bool_(wellformed)})")
+                coq_events.append(f"(EvData {L.z(system)} {L.bool_(bool(w) or (f % 2 == 1 and s != 9))} {L.bool_(wellformed)})")
             elif kind == "open":
                 _, stype, tag = ev
                 if not ses.rig.conn.connected:
